@@ -110,7 +110,9 @@ Definition ref_step (f : rfile) (op : fop) : rfile * fobs :=
 
 (* ---- which calls the property speaks about -------------------------------- *)
 (* Both kinds: every call above at ANY position >= 0 (past the end of the data too:
-   reads return nothing, iteration stops), readline(limit).  readlines(hint > 0)
+   reads return nothing, iteration stops), seek(p) with p < 0 (ValueError, nothing
+   moves; relative seeks to a negative target are outside: io.BytesIO clamps them to
+   0, a file raises OSError), readline(limit).  readlines(hint > 0)
    only for bytes: io.StringIO (C implementation) stops once the total EXCEEDS the
    hint, io.BytesIO (and _pyio) once it reaches it; SpooledStringIO follows the
    latter, so the call is outside for text.
@@ -122,7 +124,7 @@ Definition ref_pre (k : fkind) (f : rfile) (op : fop) : bool :=
   | Write _ | WriteLines _ =>
       match k with KString => Nat.eqb (rf_pos f) (length (rf_data f)) | KBytes => true end
   | Seek off wh =>
-      (wh <=? 2) && (0 <=? seek_target f off wh)%Z &&
+      (wh <=? 2) && (Nat.eqb wh 0 || (0 <=? seek_target f off wh)%Z) &&
       match k with
       | KString => Nat.eqb wh 0 || (off =? 0)%Z
       | KBytes => true
